@@ -83,6 +83,16 @@ Proof.
   cbn [fold_left]. rewrite outlier_checkAllNodes_step_ok. apply IH.
 Qed.
 
+(* the parameters are positional: pin their NAMES (the struct fields / reads the Go code uses in
+   each position), so that reading another field of the same type in the same place is noticed *)
+Section ParamNames.
+Import Coq.Strings.String.
+Local Open Scope string_scope.
+Local Open Scope list_scope.
+Lemma outlier_checkAllNodes_step_params : LeafParams.outlier_checkAllNodes_step = "filters_len" :: "nodeCount" :: "rule_EnableActiveRecovery" :: "rule_MaxEjectionPercent" :: "state" :: "try_pass" :: nil.
+Proof. reflexivity. Qed.
+End ParamNames.
+
 Print Assumptions outlier_checkAllNodes_step_flow.
 Print Assumptions outlier_checkAllNodes_step_ok.
 Print Assumptions outlier_checkAllNodes_ok.
